@@ -290,8 +290,13 @@ def parser_case(rng, rule):
             call = _copy(base_call(rng, fam))
             side = rng.choice(["ins", "outs"]) if call["outs"] else "ins"
             i = rng.randrange(len(call[side]))
-            k = rng.randint(0, len(call[side][i]))
-            call[side][i].insert(k, rng.choice(["+", "+ " + call["fresh"][0], call["fresh"][0] + " +"]))
+            z, y = call["fresh"][:2]
+            if rng.random() < 0.5:
+                # the whole expression is a concatenation of valid operands, only the parentheses are missing (l.216)
+                call[side][i] = [rng.choice([f"{z} + {y}", f"{z} + ({y} 2)", f"1 + {z} + {y}"])]
+            else:
+                k = rng.randint(0, len(call[side][i]))
+                call[side][i].insert(k, rng.choice(["+", "+ " + z, z + " +"]))
             cand = render(call)
         else:
             slots = [k for k in range(len(desc) + 1) if py_scan(desc[:k]) == ""]
